@@ -38,7 +38,8 @@
 *)
 EXTENDS Naturals, Sequences, SequencesExt, FiniteSets, TLC
 
-CONSTANTS Cfgs,           \* configurations [lrI, lrT, did, tdid, did0, nad, miuI, miuT, R] to explore
+CONSTANTS Cfgs,           \* configurations [lrI, lrT, did, tdid, did0, nad, sb, miuI, miuT, R] to explore
+                          \*   sb: 106A framing (start byte F0h in front of the length byte)
                           \*   did: the initiator sends a DID byte; tdid: the target holds a DID (ATR DID > 0);
                           \*   did0: the DID value is 0 (did /\ ~tdid)
           Lens,           \* payload lengths (bytes) the applications choose from
@@ -48,6 +49,7 @@ CONSTANTS Cfgs,           \* configurations [lrI, lrT, did, tdid, did0, nad, miu
           MaxStepFaults,  \* faulted frames per protocol step               (model checking bound)
           Vs,             \* admitted variant sets, e.g. {{}} = code as is, {{"ack","atn"}} = repaired
           WithRelease,    \* explore deactivate()
+          WithTrunc,      \* explore frames truncated to 0..3 octets                          (model checking)
           MaxSess         \* activations of the same two objects                           (model checking bound)
 
 VARIABLES cf,             \* configuration record (constant during a behaviour)
@@ -150,7 +152,7 @@ IRecv(x, f, c, v) ==
 \* ------------------------------------------------------------------ target (dep.py:511-609)
 TMore(y, c) == y.n - y.off > c.miuT
 TInf(y, c) == Fr("TI", "INF", y.pni, TMore(y, c), y.did, FALSE, y.id, y.off, Min2(c.miuT, y.n - y.off))
-TErr(y) == [y EXCEPT !.st = "err"]
+TErr(y) == [y EXCEPT !.st = "err", !.err = "Protocol"]
 
 \* the receive part of exchange(): req is the newest request                    dep.py:551-563
 TRx(y, f) ==
@@ -196,7 +198,7 @@ TRecv(y, f, c, v) ==
 I0 == [st |-> "idle", pni |-> 0, id |-> 0, n |-> 0, off |-> 0, ph |-> "tx", mode |-> "req", try |-> 0,
        rem |-> 0, D |-> 0, rx |-> <<>>, err |-> "", rel |-> "RLS", fresh |-> FALSE]
 T0(c) == [st |-> "wait", pni |-> NoPni, res |-> NoFrame, ph |-> "first", id |-> 0, n |-> 0, off |-> 0,
-          rx |-> <<>>, did |-> c.tdid, stale |-> NoPni]
+          rx |-> <<>>, did |-> c.tdid, stale |-> NoPni, err |-> "", cause |-> ""]
 
 InitWith(c) ==
     /\ cf = c
@@ -225,27 +227,58 @@ ICall(n, D) ==
 \* from the new states (NextSlot).
 Silence(x) == IF x.st = "rel" THEN [x EXCEPT !.st = "end"] ELSE ITimeout(x, cf)
 Cost(x) == IF x.st = "rel" THEN 0 ELSE Min2(cf.R, x.rem)
-Outcome(fr, f, v) ==
+\* ---- truncated frames: the driver hands over only the first k octets of [F0] LEN CMD0 CMD1 PFB ... without
+\* reporting an error.  decode_frame() (dep.py) answers "too short" (fewer than 2 octets at 106A, than 1 otherwise)
+\* with TransmissionError, anything longer fails the length byte test: ProtocolError.
+Truncs == {"t0", "t1", "t2", "t3"}
+CutAt(f) == CASE f = "t0" -> 0 [] f = "t1" -> 1 [] f = "t2" -> 2 [] OTHER -> 3
+AirLen(fr, c) == Size(fr) + 1 + B(c.sb)
+MinLen(c) == IF c.sb THEN 2 ELSE 1
+\* a cut behind the end of the frame is no cut
+Norm(fr, f) == IF f \in Truncs /\ CutAt(f) >= AirLen(fr, cf) THEN "deliver" ELSE f
+\* how much of a fault it is: a lost or corrupted frame and a cut that the receiver reports as a transmission error
+\* count once (the protocol recovers from one per step); a short frame that passes for a frame with a wrong length
+\* byte is a protocol error by design (tests/test_dep.py pins it) and a short or empty frame at the target ends
+\* its exchange(): these are not "a lost or corrupted frame" and count twice
+Weight(fr, f) ==
+    CASE Norm(fr, f) = "deliver" -> 0
+      [] Norm(fr, f) \in {"lose", "corrupt"} -> 1
+      [] fr.dir = "TI" /\ (CutAt(f) < MinLen(cf) \/ i.mode # "req" \/ i.st = "rel") -> 1
+      [] OTHER -> 2
+
+Outcome(fr, f0, v) ==
+    LET f == Norm(fr, f0) IN
     IF fr.dir = "IT"
     THEN IF f = "deliver" /\ t.st = "wait"
          THEN LET r == TRecv(t, fr, cf, v) IN
               IF r.out # NoFrame \/ r.t.st = "ret"
               THEN [i |-> i, t |-> r.t, out |-> r.out, last |-> r.did, cost |-> 0, quiet |-> TRUE]
               ELSE [i |-> Silence(i), t |-> r.t, out |-> NoFrame, last |-> r.did, cost |-> Cost(i), quiet |-> FALSE]
+         ELSE IF f \in Truncs /\ t.st = "wait"
+         THEN \* Target.send_res_recv_req(): an empty frame reads as "no frame" and exchange() returns None; a short
+              \* one makes decode_frame() raise out of exchange() (it is called outside the try block)
+              LET y == IF CutAt(f) = 0 THEN [t EXCEPT !.st = "none"]
+                       ELSE [t EXCEPT !.st = "err", !.cause = "trunc",
+                                      !.err = IF CutAt(f) < MinLen(cf) THEN "Transmission" ELSE "Protocol"] IN
+              [i |-> Silence(i), t |-> y, out |-> NoFrame, last |-> "cut", cost |-> Cost(i), quiet |-> FALSE]
          ELSE \* lost, corrupted (the target stays silent, dep.py:625-632) or nobody listens any more
               [i |-> Silence(i), t |-> t, out |-> NoFrame, last |-> IF f = "deliver" THEN "gone" ELSE "-",
                cost |-> Cost(i), quiet |-> FALSE]
     ELSE LET x == CASE i.st = "rel" -> [i EXCEPT !.st = "end"]
                     [] f = "deliver" -> IRecv(i, fr, cf, v)
                     [] f = "lose" -> ITimeout(i, cf)
-                    [] OTHER -> ITransErr(i) IN
+                    [] f = "corrupt" -> ITransErr(i)
+                    \* send_dep_req_recv_dep_res() recovers from TransmissionError only; inside the ATN / NAK
+                    \* retries any CommunicationError just uses up a retry
+                    [] CutAt(f) < MinLen(cf) \/ i.mode # "req" -> ITransErr(i)
+                    [] OTHER -> IErr(i, "Protocol") IN
          [i |-> x, t |-> t, out |-> NoFrame, last |-> "-",
           cost |-> IF f = "lose" THEN Cost(i) ELSE 0, quiet |-> FALSE]
 
 Fate(fr, f, v) ==
     /\ slot # NoFrame
     /\ LET o == Outcome(fr, f, v)
-           nf == IF f = "deliver" THEN 0 ELSE 1 IN
+           nf == Weight(fr, f) IN
        /\ i' = [o.i EXCEPT !.fresh = FALSE]
        /\ t' = o.t
        /\ slot' = IF o.quiet THEN o.out ELSE ICur(o.i, cf)      \* quiet: the target answers or is with its application
@@ -311,7 +344,7 @@ Reactivate(c, v) ==
     /\ stepFaults' = 0 /\ last' = "-" /\ now' = 0 /\ sess' = sess + 1
     /\ UNCHANGED <<nI, nT, viol, faults>>
 
-Fates == {"deliver", "lose", "corrupt"}
+Fates == {"deliver", "lose", "corrupt"} \cup (IF WithTrunc THEN Truncs ELSE {})
 Next ==
     \E v \in Vs :
        \/ \E n \in Lens, D \in Ds : ICall(n, D)
@@ -350,7 +383,7 @@ OneFaultOkP(x, y, sf, c) == (x.st = "err" /\ y.st # "err" /\ x.D > c.R) => sf >=
 OneFaultOk == OneFaultOkP(i, t, stepFaults, cf)
 
 \* the target never fails against a correct initiator
-TargetOkP(y) == y.st # "err"
+TargetOkP(y) == y.st = "err" => y.cause = "trunc"
 TargetOk == TargetOkP(t)
 
 \* a session starts with packet number 0 on both sides: the first information PDU of a session carries PNI 0
@@ -373,6 +406,8 @@ W_ErrTimeout == ~(i.st = "err" /\ i.err = "Timeout")
 W_ErrProto  == ~(i.st = "err" /\ i.err = "Protocol")
 W_Release   == ~(t.st = "none")
 W_Again     == ~(sess = 2 /\ i.st = "idle" /\ nI >= 2 /\ pendI = <<>> /\ t.stale = 0)   \* second session after PNI 0
+W_CutAbsorbed == ~(last = "nak" /\ faults = 1 /\ stepFaults = 1 /\ WithTrunc /\ i.st = "busy")
+W_CutFatal  == ~(t.st = "err" /\ t.cause = "trunc")
 W_Absorbed  == ~(i.st = "idle" /\ faults >= 2 /\ nI >= 2 /\ pendI = <<>> /\ pendT = <<>>)
 
 View == <<cf, i, t, slot, pendI, pendT, viol, faults, stepFaults, sess, last>>
